@@ -108,10 +108,21 @@ func (p *PostgresDB) Ping(ctx context.Context) error {
 	return p.db.PingContext(ctx)
 }
 
+// txFromContext returns the transaction that ORM.Transaction stored in ctx, if
+// any. Statements issued with such a context must run on that transaction, not
+// on the pool, or they would not be part of it and would survive its rollback.
+func txFromContext(ctx context.Context) *sql.Tx {
+	tx, _ := ctx.Value(txContextKey{}).(*sql.Tx)
+	return tx
+}
+
 // Query executes a query that returns rows
 func (p *PostgresDB) Query(ctx context.Context, query string, args ...interface{}) (*sql.Rows, error) {
 	if p.db == nil {
 		return nil, fmt.Errorf("database not connected")
+	}
+	if tx := txFromContext(ctx); tx != nil {
+		return tx.QueryContext(ctx, query, args...)
 	}
 	return p.db.QueryContext(ctx, query, args...)
 }
@@ -122,6 +133,9 @@ func (p *PostgresDB) QueryRow(ctx context.Context, query string, args ...interfa
 		// Return a row that will error when scanned
 		return &sql.Row{}
 	}
+	if tx := txFromContext(ctx); tx != nil {
+		return tx.QueryRowContext(ctx, query, args...)
+	}
 	return p.db.QueryRowContext(ctx, query, args...)
 }
 
@@ -129,6 +143,9 @@ func (p *PostgresDB) QueryRow(ctx context.Context, query string, args ...interfa
 func (p *PostgresDB) Exec(ctx context.Context, query string, args ...interface{}) (sql.Result, error) {
 	if p.db == nil {
 		return nil, fmt.Errorf("database not connected")
+	}
+	if tx := txFromContext(ctx); tx != nil {
+		return tx.ExecContext(ctx, query, args...)
 	}
 	return p.db.ExecContext(ctx, query, args...)
 }
